@@ -162,6 +162,76 @@ fn large(r: &Report) {
     );
 }
 
+/// `ArrayIter` / `MapIter` over iterators with exact, inexact and unbounded size hints (definite / indefinite
+/// framing) into slices and cursors of every capacity.
+fn iterator_wrappers(r: &Report) {
+    use minicbor::encode::{ArrayIter, MapIter};
+    let sub = "iterator-wrappers";
+    r.space(sub, true, "ArrayIter over [1000u16, 2, 70000-as-u32 ..] and MapIter over 3 entries with an exact, an inexact (filter) and an unbounded size hint x every capacity 0..=len+1 x {&mut [u8], Cursor<&mut [u8]>}: success iff it fits, otherwise a write error and a prefix of the encoding", 2);
+    struct NoHint<I>(I);
+    impl<I: Iterator> Iterator for NoHint<I> {
+        type Item = I::Item;
+        fn next(&mut self) -> Option<I::Item> {
+            self.0.next()
+        }
+    }
+    impl<I: Clone> Clone for NoHint<I> {
+        fn clone(&self) -> Self {
+            NoHint(self.0.clone())
+        }
+    }
+    let items: [u32; 4] = [1000, 2, 70000, 24];
+    let entries: [(u8, u16); 3] = [(1, 1000), (24, 2), (255, 65535)];
+    fn run_one<T: minicbor::Encode<()>>(v: &T, cap: usize, cursor: bool) -> SinkOut {
+        let mut mem = vec![0x5au8; cap + 32];
+        mem[16..16 + cap].fill(0xa5);
+        let (res, pos) = if cursor {
+            let mut c = Cursor::new(&mut mem[16..16 + cap]);
+            let r = minicbor::encode(v, &mut c).map_err(|e| enc_class(&e));
+            (r, c.position())
+        } else {
+            let mut s: &mut [u8] = &mut mem[16..16 + cap];
+            let r = minicbor::encode(v, &mut s).map_err(|e| enc_class(&e));
+            (r, cap - s.len())
+        };
+        let canary_ok = mem[..16].iter().chain(&mem[16 + cap..]).all(|b| *b == 0x5a);
+        SinkOut { canary_ok, res, buf: mem[16..16 + cap].to_vec(), pos }
+    }
+    let mut n = 0u64;
+    let mut ok = 0u64;
+    let mut succ = 0u64;
+    macro_rules! all_caps {
+        ($name:expr, $mk:expr) => {{
+            let bytes = minicbor::to_vec($mk).expect("encoding into a Vec");
+            for cap in 0..=bytes.len() + 1 {
+                for cursor in [false, true] {
+                    n += 1;
+                    match mcx::par::guard(|| run_one(&$mk, cap, cursor)) {
+                        Ok(o) => {
+                            if o.res.is_ok() {
+                                succ += 1;
+                            }
+                            if judge(r, sub, $name, "", if cursor { "Cursor<&mut [u8]>" } else { "&mut [u8]" }, cap, &bytes, &o) {
+                                ok += 1;
+                            }
+                        }
+                        Err(p) => r.fail(sub, None, json!({"type": $name, "capacity": cap}), format!("panicked: {}", p)),
+                    }
+                }
+            }
+        }};
+    }
+    all_caps!("ArrayIter (exact hint)", ArrayIter::new(items.iter()));
+    all_caps!("ArrayIter (inexact hint)", ArrayIter::new(items.iter().filter(|x| **x != 7)));
+    all_caps!("ArrayIter (no hint)", ArrayIter::new(NoHint(items.iter())));
+    all_caps!("MapIter (exact hint)", MapIter::new(entries.iter().map(|(k, v)| (k, v))));
+    all_caps!("MapIter (inexact hint)", MapIter::new(entries.iter().filter(|e| e.0 != 7).map(|(k, v)| (k, v))));
+    all_caps!("MapIter (no hint)", MapIter::new(NoHint(entries.iter().map(|(k, v)| (k, v)))));
+    r.add(sub, n, ok);
+    r.outcome(sub, "fits", succ);
+    r.outcome(sub, "write error", n - succ);
+}
+
 // ---- raw write_all sequences -------------------------------------------------------------
 
 trait RawSink {
@@ -342,6 +412,7 @@ fn sequences(r: &Report) {
 
 pub fn run(r: &Report) {
     large(r);
+    iterator_wrappers(r);
     values(r);
     sequences(r);
     // (not in the fallback build that `./check` makes when the generated derive definitions do not compile)
